@@ -69,7 +69,8 @@ FLOAT_VALUES = [['num', '2.5'], ['num', '0.125'], ['var', 'b'],
                 ['call', 'f1', [['var', 'b']]]]
 STR_VALUES = [['str', 'hello'], ['str', ''], ['str', 'two words'],
               ['var', 's'], ['str', '{'], ['str', '-'], ['str', '100%'],
-              ['str', 'C:\\new'], ['str', 'a\\nb'], ['str', '{}']]
+              ['str', 'C:\\new'], ['str', 'a\\nb'], ['str', '{}'],
+              ['str', 'say \\"hi\\"'], ['str', '\\"q'], ['str', 'mid\\"dle']]
 BOOL_VALUES = [['bin', '<', ['var', 'a'], ['num', '5']],
                ['bin', 'and', ['var', 'a'], ['num', '0']],
                ['bin', '==', ['var', 'b'], ['num', '2.5']]]
